@@ -85,6 +85,21 @@ CLAIMS = [
      "note": "programs are those executed in the recorded start states; tokio / rayon / std locks are not scheduled; three deadlocks found by this "
              "check were repaired by fix: commits",
      "ref": "DESIGN.md section 6 (C08)"},
+    {"id": "C05",
+     "technique": "TLC-generated client programs (ConcGen.tla) -> lock programs recorded from the real code -> TLC enumerates all schedules with <=2 preemptions (LockSched.tla) -> gated replay on real threads -> TLC linearizability search (Linearize.tla)",
+     "text": "For directed and TLC-sampled combinations of 2-3 short client programs on shared ids, the per-thread lock programs are recorded from the "
+             "real TieredEngine; LockSched.tla enumerates every complete schedule with at most two preemptions (plus seeded random schedules); each is "
+             "replayed with real threads through the gated parking_lot, logging invoke / response with a global sequence number; Linearize.tla lets TLC "
+             "search for a real-time-respecting total order explaining every response (vector and metadata of one read from the same write).",
+     "note": "preemption at lock operations and API boundaries; bulk reads judged per document; the torn read-with-metadata found by this check was repaired by a fix: commit",
+     "ref": "DESIGN.md section 6 (C05)"},
+    {"id": "C09",
+     "technique": "TLC-generated writer/snapshotter programs -> recorded lock programs -> TLC schedule enumeration (LockSched.tla) -> gated replay on a persistent backend -> strict recovery -> TLC validation (DurabilityOracle.EqualOk)",
+     "text": "1-2 writer programs plus a manual-snapshot thread (ConcGen.tla) run under every TLC-enumerated schedule with <=2 preemptions (and seeded "
+             "random schedules) on a real persistent engine with auto-snapshot interval 1-2, rotation after every frame and a capacity that forces "
+             "tombstone compaction; after all threads joined the directory is strictly recovered and TLC checks recovered census = final live census.",
+     "note": "fsync policy Never (no crash here; C01 owns crashes); schedules that do not complete are C08's subject",
+     "ref": "DESIGN.md section 6 (C09)"},
 ]
 
 _PENDING = "not yet covered by the specification suite in this revision (see DESIGN.md section 11 for the construction order)"
